@@ -6,6 +6,7 @@ import (
 
 	"github.com/dgraph-io/badger/v4"
 
+	"github.com/oasisprotocol/oasis-core/go/common/verifhook"
 	"github.com/oasisprotocol/oasis-core/go/storage/mkvs/db/api"
 	"github.com/oasisprotocol/oasis-core/go/storage/mkvs/node"
 )
@@ -66,7 +67,9 @@ func (d *badgerNodeDB) StartMultipartInsert(version uint64) error {
 	}
 
 	d.meta.setMultipart(version, multiMeta)
+	verifhook.Crash("multipart.go:StartMultipartInsert:begin")
 	d.meta.commit(tx)
+	verifhook.Crash("multipart.go:StartMultipartInsert:end")
 
 	d.multipartVersion = version
 	d.multipartMeta = multiMeta
@@ -143,17 +146,20 @@ func (d *badgerNodeDB) cleanMultipartLocked(removeNodes bool) error {
 			return err
 		}
 	}
+	verifhook.Crash("multipart.go:cleanMultipartLocked:begin")
 
 	// Flush batch first. If anything fails, having corrupt multipart info in d.meta shouldn't hurt
 	// us next run.
 	if err := batch.Flush(); err != nil {
 		return err
 	}
+	verifhook.Crash("multipart.go:cleanMultipartLocked:after-batch-flush")
 
 	metaTx := d.db.NewTransactionAt(tsMetadata, true)
 	defer metaTx.Discard()
 	d.meta.setMultipart(0, nil)
 	d.meta.commit(metaTx)
+	verifhook.Crash("multipart.go:cleanMultipartLocked:end")
 
 	d.multipartVersion = multipartVersionNone
 	d.multipartMeta = nil
